@@ -416,9 +416,13 @@ def main_check(prop_id, tier, seed, cases=None, time_s=None, workers=None):
         except Exception:  # pylint: disable=broad-except
             post = {'inconclusive': ['post_run failed: ' +
                                      traceback.format_exc()[-800:]]}
+        counts = post.get('viol_counts')
         for v in post.get('violations', []):
             merged['violations'].append(v)
-            merged['viol_counts'][v['key']] += 1
+            if counts is None:
+                merged['viol_counts'][v['key']] += 1
+        for k, c in (counts or {}).items():
+            merged['viol_counts'][k] += c
         merged['events'].update(post.get('events', {}))
         merge_extra(merged['extra'], post.get('extra', {}))
         inconclusive.extend(post.get('inconclusive', []))
@@ -503,7 +507,12 @@ def main_replay(prop_id, path):
     if hasattr(mod, 'setup_worker'):
         mod.setup_worker(ctx)
     plan = mod.plan(rec.get('tier', 'quick'))
-    run_one_case(mod, ctx, rec['case'], 4 * plan.get('case_cpu_s', 60))
+    if rec.get('harvested') and hasattr(mod, 'replay_harvested'):
+        # witness from the oracle applied to an object harvested from the
+        # repository's tests: judge the recorded object again
+        mod.replay_harvested(ctx, rec)
+    else:
+        run_one_case(mod, ctx, rec['case'], 4 * plan.get('case_cpu_s', 60))
     if hasattr(mod, 'finish_worker'):
         mod.finish_worker(ctx)
     keys = sorted(ctx.viol_counts)
